@@ -129,11 +129,9 @@ def eval_ilv(case):
             proj[ci].append(body(r['text']))
         # the connection listing, while open and after the end of input
         for tag, listing, state in (('open', listing_open, 'open'), ('closed', listing_closed, 'closed')):
-            want = ['%s (%s%s): %s, %d messages' % (names[ci], 'unknown type' if roles[ci] == 'unknown' else roles[ci],
-                                                    ', closed' if state == 'closed' else '', state,
-                                                    len(SCRIPTS[case['scripts'][ci]]['events']))
-                    for ci in first_seen]
-            got = [l.strip() for l in listing]
+            want = [{'name': names[ci], 'role': roles[ci], 'closed': state == 'closed', 'selected': False,
+                     'messages': len(SCRIPTS[case['scripts'][ci]]['events']), 'state': state} for ci in first_seen]
+            got = [outparse.connection_line(l) for l in listing]
             if got != want:
                 V.append(Violation('listing.' + tag, case, {'expected': want, 'observed': got}))
         got_closed = sorted((outparse.classify(l)[1]['conn'], outparse.classify(l)[1]['role'])
@@ -163,8 +161,8 @@ def eval_ilv(case):
                 V.append(Violation('isolation.projection', case, {
                     'connection': names[ci], 'first_difference_at': k,
                     'solo': solo[k:k + 1], 'interleaved': proj[ci][k:k + 1]}))
-            want = [l.strip().replace('A (', names[ci] + ' (', 1) for l in lo2]
-            got = [l.strip() for l in listing_open if l.strip().startswith(names[ci] + ' (')]
+            want = [dict(outparse.connection_line(l) or {}, name=names[ci]) for l in lo2]
+            got = [outparse.connection_line(l) for l in listing_open if (outparse.connection_line(l) or {}).get('name') == names[ci]]
             if want != got:
                 V.append(Violation('isolation.listing', case, {'solo': want, 'interleaved': got}))
     except Exception:
